@@ -40,6 +40,8 @@ def _explain(net0, t, n2=None, M=None, extra=None, opts=None, skip=()):
             toks.append("t3_switch_and_trafo3w_index_changes")
     if t[0] == "subnet" and (net0.switch.et == "t3").any():
         toks.append("t3_switch_in_net")
+    if t[0] == "merge" and len(net0.asymmetric_sgen):
+        toks.append("asymmetric_sgen_rows")
     if n2 is None or M is None:
         return toks
     dc = bool(opts.get("dc"))
@@ -54,6 +56,14 @@ def _explain(net0, t, n2=None, M=None, extra=None, opts=None, skip=()):
                 v.ext_grid.loc[idx, "va_degree"] = 0.
                 if agrees(v, M):
                     toks.append("explained=ext_grid_va_degree_dropped")
+        if t[0] in ("line2imp", "line2imp2line"):
+            idx = list(net0.line.index) if t[1] == "all" else [t[1]]
+            sw = net0.switch.index[(net0.switch.et == "l") & net0.switch.element.isin(idx) & ~net0.switch.closed]
+            if len(sw):
+                v = copy.deepcopy(net0)
+                v.switch.loc[sw, "closed"] = True       # what the replacement does: the open switch disappears
+                if agrees(v, M):
+                    toks.append("explained=open_line_switch_lost")
         if t[0] == "fuse":
             b1, b2 = t[1], t[2]
             v = copy.deepcopy(net0)
@@ -91,6 +101,21 @@ def _explain(net0, t, n2=None, M=None, extra=None, opts=None, skip=()):
     return toks
 
 
+SN_TOOLS = ("xward", "ward", "line2imp", "line2imp2line", "imp2line", "imp2line2imp", "merge", "eg2gen", "gen2eg",
+            "merge_parallel")
+PERM_TOOLS = ("cont_bus", "cont_elem", "line2imp", "line2imp2line", "imp2line", "imp2line2imp", "merge", "fuse", "subnet")
+
+
+def _tools_for(T, pre, tier):
+    """quick tier: a representation is paired only with the tools whose code can depend on it (per-unit base: the
+    replace/merge functions that compute per-unit values; descending labels: everything that sorts or looks up by
+    index); the as-built and the gapped representation get every tool.  thorough: everything everywhere."""
+    if tier != "quick" or pre[0] == "id" or pre == ["relabel_all", "gap"]:
+        return T
+    keep = SN_TOOLS if pre[0] == "sn" else PERM_TOOLS
+    return [t for t in T if t[0] in keep and not (pre[0] == "sn" and t == ["merge", "case_second"])]
+
+
 def run_case(case):
     net_in = ba.build(case)
     b_tf.check_alphabet(net_in)
@@ -112,7 +137,7 @@ def run_case(case):
         if oc != "ok":
             continue
         okany = True
-        T = case["tf"] if case.get("tf") is not None else b_tool.enum_tools(net0, tier)
+        T = case["tf"] if case.get("tf") is not None else _tools_for(b_tool.enum_tools(net0, tier), pre, tier)
         for t in T:
             out["n"] += 1
             cnt("tool_" + t[0])
@@ -181,10 +206,13 @@ def c23_menu(b):
     if b == "I2":
         extra += [["impedance", 1, 3, False], ["set", "line", 2, "c_nf_per_km", 0.]]       # line 2 has an open switch
     # a capacitance-free line (accepted by replace_line_by_impedance) that also has an open line switch
+    # ... or that is a parallel line (parallel=n must enter the impedance)
     if b == "R3":
-        extra += [["multi", [["set", "line", 1, "c_nf_per_km", 0.], ["set", "switch", 1, "closed", False]]]]
+        extra += [["multi", [["set", "line", 1, "c_nf_per_km", 0.], ["set", "switch", 1, "closed", False]]],
+                  ["multi", [["set", "line", 0, "c_nf_per_km", 0.], ["set", "line", 0, "parallel", 3]]]]
     if b == "M4":
-        extra += [["multi", [["set", "line", 1, "c_nf_per_km", 0.], ["set", "switch", 0, "closed", False]]]]
+        extra += [["multi", [["set", "line", 1, "c_nf_per_km", 0.], ["set", "switch", 0, "closed", False]]],
+                  ["multi", [["set", "line", 4, "c_nf_per_km", 0.], ["set", "line", 4, "parallel", 2]]]]
     if b == "T3":
         extra += [["multi", [["set", "line", 0, "c_nf_per_km", 0.], ["switch", 2, 0, "l", False, 0.]]]]
     for d in extra:
